@@ -227,3 +227,43 @@ def assumptionD (T : RKTab) (ζ tolDen : Nat) : Bool :=
       closeTo tolDen k (dot w col) (b.getD j 0 * (((2 ^ (T.K * k) : Nat) : Int) - (T.c.getD j 0) ^ k)) (T.K * (k + 1))))
 
 end DV.Trees
+
+/-! ## algebraic conditions for symplectic / symmetric Runge–Kutta tables and splitting tables -/
+namespace DV.Trees
+
+def absI (x : Int) : Int := if x < 0 then -x else x
+
+/-- `|b_i a_ij + b_j a_ji − b_i b_j| ≤ 1/tolDen` for all `i, j` (Lasagni / Sanz-Serna / Suris) -/
+def symplecticM (T : RKTab) (tolDen : Nat) : Bool :=
+  let b := T.bs.headD []
+  let s := b.length
+  (List.range s).all (fun i => (List.range s).all (fun j =>
+    let bi := b.getD i 0
+    let bj := b.getD j 0
+    let aij := (T.A.getD i []).getD j 0
+    let aji := (T.A.getD j []).getD i 0
+    decide ((tolDen : Int) * absI (bi * aij + bj * aji - bi * bj) ≤ ((2 ^ (2 * T.K) : Nat) : Int))))
+
+/-- the table equals its adjoint: `a_{s+1-i,s+1-j} + a_ij = b_j` and `b_{s+1-j} = b_j` (symmetric, hence
+time-reversible, method) to within `1/tolDen` -/
+def symmetricTab (T : RKTab) (tolDen : Nat) : Bool :=
+  let b := T.bs.headD []
+  let s := b.length
+  (List.range s).all (fun i => (List.range s).all (fun j =>
+    let aij := (T.A.getD i []).getD j 0
+    let arr := (T.A.getD (s - 1 - i) []).getD (s - 1 - j) 0
+    decide ((tolDen : Int) * absI (arr + aij - b.getD j 0) ≤ ((2 ^ T.K : Nat) : Int)) &&
+    decide ((tolDen : Int) * absI (b.getD (s - 1 - j) 0 - b.getD j 0) ≤ ((2 ^ T.K : Nat) : Int))))
+
+/-- every stage of a splitting table moves only the drift or only the kick variables -/
+def stagesAreShears (T : SplitTab) : Bool :=
+  (List.zip T.drift T.kick).all (fun p => p.1 == 0 || p.2 == 0)
+
+def palindromic (T : SplitTab) : Bool := T.drift.reverse == T.drift && T.kick.reverse == T.kick
+
+/-- drift and kick coefficients each sum to one (consistency), to within `1/tolDen` -/
+def coeffsSumOne (T : SplitTab) (tolDen : Nat) : Bool :=
+  decide ((tolDen : Int) * absI (vecSum T.drift - ((2 ^ T.K : Nat) : Int)) ≤ ((2 ^ T.K : Nat) : Int)) &&
+  decide ((tolDen : Int) * absI (vecSum T.kick - ((2 ^ T.K : Nat) : Int)) ≤ ((2 ^ T.K : Nat) : Int))
+
+end DV.Trees
